@@ -56,7 +56,7 @@ Fixpoint self_check_from (s : state) (ops : list op) (idx : nat) : list nat :=
     (if bad then [idx] else []) ++ self_check_from (fst (step s o)) r (S idx)
   end.
 
-(* the matcher against Go regexp: code 0 = no match, 1 = match, 2 = compile error *)
+(* the PRE-FIX matcher against Go regexp on the pre-fix translation: code 0 = no match, 1 = match, 2 = compile error *)
 Definition rx_code (p s : name) : N :=
   match rx_matcher p with None => 2 | Some m => if m s then 1 else 0 end.
 
